@@ -128,6 +128,8 @@ fn cap_depth(profile: &str, shape: &str, api: &str, tier: Tier, d: usize) -> usi
     if profile == "debug" && matches!(shape, "key" | "alt-block" | "mix") && api.starts_with("load_") {
         // the same quadratic hashing cost, ten times slower without optimisation
         d.min(3000)
+    } else if profile == "debug" && shape == "key-per-level" {
+        d.min(5000)
     } else if shape == "key-per-level" {
         // input size is quadratic in depth: cost bound, stated in the evidence
         d.min(tier.pick(5000, 20_000))
